@@ -53,9 +53,13 @@ def rev_ent():
     return REV_ENT
 
 
-REWRITES = ["hex", "dec", "named", "prefix-m", "prefix-mml", "defaultns", "ws", "comment", "pi", "xmldecl", "mjx2", "mjx3", "squote"]
+REWRITES = ["hex", "dec", "named", "prefix-m", "prefix-mml", "defaultns", "ws", "ws-crlf", "comment", "pi", "xmldecl", "mjx2", "mjx3", "squote",
+            "tokws-lf", "tokws-crlf", "tokws-crref", "tokws-tab", "tokws-inner-crlf"]
 # pairs that cannot be combined (two answers to the same surface question)
-EXCLUSIVE = [{"hex", "dec", "named"}, {"prefix-m", "prefix-mml", "defaultns"}, {"mjx2", "mjx3"}]
+EXCLUSIVE = [{"hex", "dec", "named"}, {"prefix-m", "prefix-mml", "defaultns"}, {"mjx2", "mjx3"}, {"ws", "ws-crlf"},
+             {"tokws-lf", "tokws-crlf", "tokws-crref", "tokws-tab"}]
+# XML white space around (and, where the text already has a blank, inside) the text of a token: every spelling of it is trimmed / collapsed alike
+TOKWS = {"tokws-lf": ("\n   ", "\n  "), "tokws-crlf": ("\r\n   ", "\r\n  "), "tokws-crref": ("&#xD;&#xA; ", "&#13;&#10;"), "tokws-tab": ("\t ", " \t")}
 
 
 def enc_text(s, opts, attr=False):
@@ -94,6 +98,8 @@ def surface(t, opts, depth=0, root=True):
     sep = ""
     if "ws" in opts:
         sep += "\n" + "  " * (depth + 1)
+    if "ws-crlf" in opts:
+        sep += "\r\n" + "\t" * (depth + 1)
     if "comment" in opts:
         sep += "<!-- note: x<y & z -->"
     if "pi" in opts:
@@ -103,7 +109,13 @@ def surface(t, opts, depth=0, root=True):
         inner = sep + sep.join(surface(k, opts, depth + 1, False) for k in t.kids) + sep
         return f"{head}<{pre}{t.tag}{a}>{inner}</{pre}{t.tag}>"
     if t.text is not None:
-        return f"{head}<{pre}{t.tag}{a}>{enc_text(t.text, opts)}</{pre}{t.tag}>"
+        body = enc_text(t.text, opts)
+        if "tokws-inner-crlf" in opts and " " in t.text.strip():
+            body = body.replace(" ", "\r\n ", 1)                 # a blank inside the text spelled as CR LF blank
+        for k, (lead, trail) in TOKWS.items():
+            if k in opts and t.text.strip():
+                body = lead + body + trail
+        return f"{head}<{pre}{t.tag}{a}>{body}</{pre}{t.tag}>"
     return f"{head}<{pre}{t.tag}{a}/>"
 
 
